@@ -41,7 +41,11 @@ inline std::string byteNoise(sim::Rng &r, const std::string &src, bool isX) {
   std::string s = src;
   unsigned char b = odd[r.below(sizeof odd)];
   if (isX && b == 0xFF) b = 0xFE;
-  switch (r.below(6)) {
+  switch (r.below(10)) {
+    case 6: { std::string t; for (char c : s) { if (c == '\n') t += "\r\n"; else t.push_back(c); } return t; }   // CR LF line ends
+    case 7: { for (char &c : s) if (c == ' ') c = '\t'; return s; }                                               // tabs for blanks
+    case 8: { while (!s.empty() && (s.back() == '\n' || s.back() == ' ')) s.pop_back(); return s; }               // last line without a newline
+    case 9: return r.chance(1, 2) ? std::string() : std::string((size_t)r.below(4), '\n');                        // an empty file
     case 0: s.insert(s.begin() + (long)r.below(s.size() + 1), (char)b); break;                 // anywhere
     case 1: s.push_back((char)b); if (r.chance(1, 2)) s += "junk ("; break;                     // after the last byte
     case 2: { size_t nl = s.rfind('\n', s.size() > 1 ? s.size() - 2 : 0);                      // start of the last line
